@@ -280,6 +280,11 @@ pub fn next_solution<'a>(sn: Rc<RefCell<SolutionNode<'a>>>)
             sn_ref.child = None;
             loop {
 
+                // A cut (!) in the body of the previous rule disables backtracking
+                // on this node (see set_no_backtracking()). No further rules may
+                // be tried.
+                if unsafe { (*sn.as_ptr()).no_backtracking } { return None; }
+
                 if sn_ref.rule_index >= sn_ref.number_facts_rules { return None; }
 
                 // The fallback_id saves the logic variable ID (LOGIC_VAR_ID),
